@@ -42,6 +42,12 @@ def project_probes(ctx, project):
             ctx.probe("symlinked_pattern_file")
         if f.get("huge_line"):
             ctx.probe("line_longer_than_128KiB")
+        if f.get("blank_delimited"):
+            ctx.probe("toml_pattern_delimited_by_blanks")
+        if any(isinstance(p_, str) and p_.startswith("@kt") for p_ in f.get("patterns", [])):
+            ctx.probe("tag_only_pattern_on_digit_free_line")
+        if any(isinstance(p_, str) and ("{0}" in p_ or "{1,3}" in p_ or "a{2}" in p_) for p_ in f.get("patterns", [])):
+            ctx.probe("quantifier_shaped_literal_in_pattern")
         if f.get("bare"):
             ctx.probe("bare_version_pattern")
         if f.get("globbed"):
@@ -201,6 +207,24 @@ class Life:
                         ctx.violation("C15", "pep440_slot_not_found_again", dict(f0, path=f["path"]),
                                       "the {pep440_version} text bumpver renders for %r (%r) is not accepted by the "
                                       "derived search pattern %r" % (text, w.pep_initial(text), raw))
+        # C02 for search patterns: what the rewrite step renders for a pattern is accepted in full by the recogniser
+        # compiled from that same pattern
+        for f in project["files"]:
+            for raw in f["patterns"]:
+                try:
+                    rt = adapter.search_pattern_round_trip(pattern, raw, text)
+                except invoker.HarnessError:
+                    raise
+                except Exception as ex:
+                    rt = ("<%s: %s>" % (type(ex).__name__, ex), False)
+                if rt is None:
+                    continue
+                ctx.probe("search_pattern_round_trip")
+                if not rt[1]:
+                    ctx.violation("C02", "render_not_recognised",
+                                  dict(tc.facts_for(tree, state, None, {}, pattern), search_pattern=True, text=text),
+                                  "search pattern %r renders %r for version %r, and its own recogniser does not accept that" % (
+                                      raw, rt[0], text))
         generated = False
         wrote = False      # the files hold what a successful real update of this run wrote
         regions = tuple(sorted(set(s["slot"] if s["slot"].startswith("{") else "partial"
